@@ -330,5 +330,10 @@ pub fn run(args: &[String]) {
     let _ = f.lock().unwrap().flush();
     server.stop();
     let _ = std::fs::remove_dir_all(&dir);
+    let (np, first) = lib_panics();
+    if np > 0 {
+        emit(&json!({"fail": true, "case": 0, "variant": "library-panic", "sig": "library-panic",
+            "detail": format!("the service's own code panicked {} time(s) while serving these connections (first: {})", np, first.chars().take(300).collect::<String>())}));
+    }
     emit(&json!({"summary": true, "conns": per * clients, "requests": total_reqs.load(std::sync::atomic::Ordering::Relaxed), "failures": 0, "executions": per * clients}));
 }
